@@ -158,7 +158,13 @@ def make_dataframe(records: dict, patch_ids=None):
     return pd.DataFrame(cols)
 
 
-def write_source(kind: str, path: str, records: dict, patch_ids=None, *, pq_seed: int = 0):
+def parquet_row_group_size(n: int, pq_seed: int, pq_rowgroup: int | None = None) -> int:
+    if pq_rowgroup:
+        return max(1, int(pq_rowgroup))
+    return 1 + (int(pq_seed) % max(1, min(n, 97)))
+
+
+def write_source(kind: str, path: str, records: dict, patch_ids=None, *, pq_seed: int = 0, pq_rowgroup: int | None = None):
     """Write the records as FITS / HDF5 / Parquet input file."""
     cols = dict(records)
     if patch_ids is not None:
@@ -181,8 +187,7 @@ def write_source(kind: str, path: str, records: dict, patch_ids=None, *, pq_seed
         from pyarrow import parquet
 
         table = pa.table(cols)
-        n = len(table)
-        rg = 1 + (int(pq_seed) % max(1, min(n, 97)))
+        rg = parquet_row_group_size(len(table), pq_seed, pq_rowgroup)
         parquet.write_table(table, path, row_group_size=rg)
     else:
         raise ValueError(kind)
